@@ -29,12 +29,15 @@ if do_replay:
 refresh = "--refresh" in args
 if refresh:
     args.remove("--refresh")
-if refresh or not os.path.exists(CACHE + "/similari.mir"):
+pid = [a for a in args if not a.startswith("--")][0]
+FEATS = getattr(importlib.import_module(pid), "MIR_FEATURES", None)
+MIRFILE = CACHE + "/similari%s.mir" % ("-" + FEATS if FEATS else "")
+if refresh or not os.path.exists(MIRFILE):
     os.makedirs(CACHE, exist_ok=True)
     subprocess.check_call(["rsync", "-a", "--delete", "--exclude", "/target", "--exclude", ".git", "/repo/", CACHE + "/repo/"])
     if seed:
         subprocess.check_call(["patch", "-s", "-p1", "-i", os.path.join(HERE, "..", "seeded", seed, "patch.diff")], cwd=CACHE + "/repo")
-    engine.dump_mir(CACHE + "/repo", CACHE + "/similari.mir", CACHE + "/mirtarget")
+    engine.dump_mir(CACHE + "/repo", MIRFILE, CACHE + "/mirtarget", FEATS)
 pid = args[0]
 sub = args[1] if len(args) > 1 else ""
 mod = importlib.import_module(pid)
@@ -48,7 +51,7 @@ class Sc:
 for q in mod.MIR:
     if sub in q.name:
         t = time.time()
-        o = mir_engine._worker(CACHE + "/similari.mir", CACHE + "/repo", pid, q.name, 0)
+        o = mir_engine._worker(MIRFILE, CACHE + "/repo", pid, q.name, 0)
         print("%-40s %-12s paths=%d z3=%d (%.1fs solver) %.1fs %s" % (q.name, o["status"], o["paths"], o["queries"], o["solver_s"], time.time() - t, o["detail"][-500:]))
         if o["status"] == "selftest":
             n = mir_engine.native_replay(Sc, o["selftest_src"])
